@@ -147,7 +147,7 @@ Definition loop_body (c : actx) (is_coll : bool) (m : nsm) (d : list (qname * li
       | Fail m2 e => (m2, d, LFail e)
       | Done m2 None => (m2, d, LFail EProv)
       | Done m2 (Some v) =>
-          if (negb is_coll && is_formal_attr attr)%bool then
+          if (negb (is_coll && is_prov_name "entity" attr) && is_formal_attr attr)%bool then
             match attr_get attr d with
             | e0 :: _ => if py_eq v e0 then add_attrs_loop c is_coll m2 d rest
                          else (m2, d, LFail EProv)
